@@ -28,6 +28,8 @@ def rules(ctx):
     c064(ctx)
     c065(ctx)
     c066(ctx)
+    from . import C02
+    C02.c028(ctx)              # within a batch the last write of a key is the one that becomes visible
     from . import C20
     C20.c203_departures(ctx)   # a failed write hands the head of the wait list on (a writer queued behind it would sleep for ever)
 
